@@ -47,8 +47,6 @@ Probes == [count |-> Card(Present),
 \* with WithDDL the table already holds rows 1..600 (inserted in ascending order before the first step), so that every
 \* CREATE INDEX of a behaviour builds an index of several leaves from existing rows
 Prefilled == IF WithDDL THEN 600 ELSE 0
-Init == a = [i \in Ids |-> IF i <= Prefilled THEN i % 10 ELSE NoRow] /\ txn = <<>> /\ nops = 0 /\ hist = <<>> /\ idx = (IF WithDDL THEN {} ELSE {"a"}) /\ big = {}
-
 ProbesOf(f) == [count |-> Card({i \in Ids : f[i] # NoRow}),
                 pts |-> [i \in ProbeIds \cap Ids |-> f[i]],
                 eq0 |-> Card({i \in Ids : f[i] = 0}), eq3 |-> Card({i \in Ids : f[i] = 3}),
@@ -56,6 +54,15 @@ ProbesOf(f) == [count |-> Card({i \in Ids : f[i] # NoRow}),
                 r1 |-> Card({i \in 60..70 : i \in Ids /\ f[i] # NoRow}),
                 r2 |-> Card({i \in 120..260 : i \in Ids /\ f[i] # NoRow}),
                 r3 |-> Card({i \in (N - 5)..N : f[i] # NoRow})]
+A0 == [i \in Ids |-> IF i <= Prefilled THEN i % 10 ELSE NoRow]
+\* with WithDDL every behaviour begins with the CREATE INDEX of one of the three indexes on the prefilled table (one initial
+\* state per index; the step is the first entry of hist, so the replay issues it after the prefill)
+FirstDDL(c) == [op |-> [k |-> "create_index", col |-> c], n |-> 0, intxn |-> FALSE, idx |-> {c},
+                rows |-> {<<i, A0[i]>> : i \in {j \in Ids : A0[j] # NoRow}}, nbig |-> 0, bigpts |-> [i \in {1, 64, 129} |-> FALSE], probes |-> ProbesOf(A0)]
+Init == /\ a = A0 /\ txn = <<>> /\ big = {}
+        /\ IF WithDDL THEN \E c \in {"a", "pad", "c"} : idx = {c} /\ hist = <<FirstDDL(c)>> /\ nops = 1
+                      ELSE idx = {"a"} /\ hist = <<>> /\ nops = 0
+
 StepY(op, n, newa, newtxn, newidx, newbig) ==
                      /\ nops < MaxOps /\ a' = newa /\ txn' = newtxn /\ idx' = newidx /\ big' = newbig /\ nops' = nops + 1
                      /\ hist' = Append(hist, [op |-> op, n |-> n, intxn |-> newtxn # <<>>, idx |-> newidx,
@@ -113,10 +120,8 @@ DropIndex(c) == WithDDL /\ txn = <<>> /\ c \in idx /\ StepX([k |-> "drop_index",
 DDL == \E c \in {"a", "pad", "c"} : (\E w \in 1..4 : CreateIndex(c)) \/ (\E w \in 1..2 : DropIndex(c))
 FillRun == FALSE
 
-LaterNext == DDL \/ FillRun \/ (\E w \in 1..3 : PadGrow) \/ PadShrink \/ DeleteBig \/ InsertRun \/ InsertRun \/ DeleteRange \/ DeleteEq \/ UpdateRange \/ (\E w \in 1..(IF WithDDL THEN 6 ELSE 40) : Reopen)
+Next == DDL \/ FillRun \/ (\E w \in 1..3 : PadGrow) \/ PadShrink \/ DeleteBig \/ InsertRun \/ InsertRun \/ DeleteRange \/ DeleteEq \/ UpdateRange \/ (\E w \in 1..(IF WithDDL THEN 6 ELSE 40) : Reopen)
         \/ (\E w \in 1..160 : Begin) \/ (\E w \in 1..40 : Commit) \/ (\E w \in 1..40 : Rollback) \/ InsertBigInTxn
-\* with WithDDL every behaviour begins by creating one of the indexes on the prefilled table
-Next == IF WithDDL /\ nops = 0 THEN \E c \in {"a", "pad", "c"} : CreateIndex(c) ELSE LaterNext
 Spec == Init /\ [][Next]_vars
 
 \* the model's own sanity: counts are consistent with the point view
